@@ -433,6 +433,32 @@ def step (st : DrvState) (line : String) : DrvState × String :=
   | "merge" :: mode :: batch :: fd :: _threads :: seed :: rest =>
     (st, cmdMerge mode batch.toNat! fd.toNat! seed.toNat! (rest.headD ""))
   | ["spec", hex] => (st, cmdSpec hex)
+  | ["hdr", hex] =>
+    match arrayOfHex hex with
+    | some bs => let (st', o) := openBytes st bs; (st', "load " ++ o)
+    | none => (st, "badhex")
+  | ["open", hex] =>
+    match arrayOfHex hex with
+    | none => (st, "badhex")
+    | some bs =>
+      let d := Src.ofArray bs
+      match fstNew d with
+      | .ok m =>
+        let v := match fstVerify m d with
+          | .ok () => "verify ok"
+          | .err .checksumMissing => "verify missing"
+          | .err (.checksumMismatch e g) => s!"verify mismatch {e} {g}"
+          | .panic _ => "verify panic"
+        (st, s!"open ok v={m.version} ty={m.ty} len={m.len} | {v}")
+      | .err (.format n) => (st, s!"open err format {n}")
+      | .err (.version _ g) => (st, s!"open err version {g}")
+      | .panic _ => (st, "open panic")
+  | "foot" :: geom :: rest =>
+    let (rows, cols) := parseGeom geom
+    let (b, _) := runCalls false (parseCalls (rest.headD "")) (BState.new rows cols) []
+    (st, s!"foot stack={b.stack.length} strans={(b.stack.map fun u => u.node.trans.length).sum} cells={rows * cols} ctrans={b.reg.footprint}")
+  | ["expect", _] => (st, "expect ok")
+  | ["expect"] => (st, "expect ok")
   | ["corrupt", hex] =>
     match arrayOfHex hex with
     | none => (st, "badhex")
